@@ -93,6 +93,7 @@ type Exec struct {
 	inputByNm  map[string]*InputVar
 	depth      int
 	unwind     int
+	sliceBound int
 	harness    string
 	funcs      map[string]int
 	finfo      map[*ssa.Function]*FuncInfo
@@ -114,7 +115,7 @@ type Exec struct {
 
 func newExec(prog *ssa.Program, hpkg *ssa.Package) *Exec {
 	return &Exec{prog: prog, hpkg: hpkg, globals: map[*ssa.Global]*Obj{}, initDone: map[*ssa.Package]bool{},
-		dead: ts.False, inputByNm: map[string]*InputVar{}, unwind: 12, funcs: map[string]int{}, finfo: map[*ssa.Function]*FuncInfo{},
+		dead: ts.False, inputByNm: map[string]*InputVar{}, unwind: 12, sliceBound: 16, funcs: map[string]int{}, finfo: map[*ssa.Function]*FuncInfo{},
 		spawned: map[string]int{}, stubsUsed: map[string]int{}, warnings: map[string]int{}, maxSteps: 40_000_000, uninitGlob: map[string]bool{}}
 }
 
